@@ -113,6 +113,106 @@ class ComponentVariables(Target):
         return []
 
 
+class InstanceVariables(Target):
+    """FlowIRConcrete.instance() FLATTENS the layered variables of the selected platform into a document for the
+    default platform that only has a global scope and one scope per stage (stage outranks global when the instance
+    is read back).  The flattening must preserve the documented order: for every variable name, what a component of
+    the stage sees in the instance (stage scope, then global scope) is what the layered package gives it
+    (platform-stage > platform-global > default-stage > default-global).  The statement slice is the part of
+    instance() that computes the two scopes; the getters it calls are the REAL ones (interpreted from the class)."""
+    prop = 'C04'
+    name = 'FlowIRConcrete.instance[variable scopes]'
+    file = F
+    qualname = 'FlowIRConcrete.instance'
+    slice = ('platform = platform or self._platform', 'self.get_environments(', False)
+    inline_class = {'this': (F, 'FlowIRConcrete')}
+    trusted = ["FlowIR.interpolate replaces references inside one value and leaves the choice of the layer alone "
+               "(identity here; interpolation is C10 / the bounded stand-in below)",
+               "FlowIR.override_object is a right-biased merge (only reached by refactorings; bounded stand-in below)"]
+    assumptions = ["variable names range over a 2-element universe, presence of each name in each of the four scopes "
+                   "enumerated, values arbitrary (symbolic); one stage with one component"]
+    NAMES = ('a', 'b')
+
+    def setup(self, c):
+        plat = c.one_of('platform', ['plat', DEFAULT])
+        scopes = {}
+        for sc in ('default_global', 'default_stage', 'platform_global', 'platform_stage'):
+            d = {}
+            for n in self.NAMES:
+                if sc.startswith('platform') and plat == DEFAULT:
+                    continue
+                if c.one_of('%s_defines_%s' % (sc, n), [True, False]):
+                    d[n] = c.str('%s_%s' % (sc, n))
+            scopes[sc] = d
+        doc = {FlowIR.FieldVariables: {DEFAULT: {FlowIR.LabelGlobal: dict(scopes['default_global']),
+                                                 FlowIR.LabelStages: {0: dict(scopes['default_stage'])}},
+                                       'plat': {FlowIR.LabelGlobal: dict(scopes['platform_global']),
+                                                FlowIR.LabelStages: {0: dict(scopes['platform_stage'])}}}}
+        comp = {'stage': 0, 'name': 'comp'}
+        c.ghost['contexts'] = []
+        this = Obj('concrete', _platform=c.one_of('active_platform', [DEFAULT, 'plat']), platforms=[DEFAULT, 'plat'],
+                   _flowir=doc, _cache=Obj('cache', clear=Extern('cache.clear', lambda c: None)),
+                   get_component_identifiers=Extern('get_component_identifiers', lambda c, **k: [(0, 'comp')]),
+                   get_component=Extern('get_component', lambda c, cid, return_copy=True: dict(comp)),
+                   get_component_configuration=Extern('get_component_configuration', lambda c, cid, **k: dict(comp)),
+                   get_stage_number=Extern('get_stage_number', lambda c: 1))
+        return State(kwargs={'self': this, 'platform': plat, 'is_primitive': False, 'inject_missing_fields': True,
+                             'ignore_errors': False, 'fill_in_all': False},
+                     this=this, scopes=scopes, plat=plat, doc=doc)
+
+    def externs(self, c, st):
+        def interpolate(c, value, context, *a, **k):
+            c.ghost['contexts'].append((k.get('label'), dict(unflex(context))))
+            return value
+
+        def override(c, a, b):
+            r = dict(unflex(a))
+            r.update(unflex(b))
+            return r
+        return {'FlowIR.interpolate': Extern('FlowIR.interpolate', interpolate),
+                'FlowIR.override_object': Extern('FlowIR.override_object', override)}
+
+    def ensures(self, c, st, out):
+        if out.kind == 'raise':
+            return [('no-exception', False)]
+        s = st.scopes
+        on_plat = st.plat != DEFAULT
+        glob = unflex(st.env['global_variables'])
+        stage = unflex(unflex(st.env['stage_variables']).get(0, {}))
+        if on_plat:
+            layers = [s['platform_stage'], s['platform_global'], s['default_stage'], s['default_global']]
+            glayers = [s['platform_global'], s['default_global']]
+        else:
+            layers = [s['default_stage'], s['default_global']]
+            glayers = [s['default_global']]
+        cl = []
+        seen_ok, val_ok, g_ok, ctx_ok = True, True, True, True
+        stage_ctx = [ctx for (label, ctx) in c.ghost['contexts'] if label and '.stages.' in label]
+        for k in self.NAMES:
+            pres, val = first_defined(layers, k)
+            got_p = (k in stage) or (k in glob)
+            got_v = stage[k] if k in stage else glob.get(k, '')
+            seen_ok = And(seen_ok, Iff(got_p, pres))
+            val_ok = And(val_ok, Implies(pres, Eq(got_v, val)))
+            gp, gv = first_defined(glayers, k)
+            g_ok = And(g_ok, Iff(k in glob, gp), Implies(gp, Eq(glob.get(k, ''), gv)))
+            for ctx in stage_ctx:
+                ctx_ok = And(ctx_ok, Iff(k in ctx, pres), Implies(pres, Eq(ctx.get(k, ''), val)))
+        orig = st.doc[FlowIR.FieldVariables]
+        frame = (unflex(orig[DEFAULT][FlowIR.LabelGlobal]) == s['default_global']
+                 and unflex(orig[DEFAULT][FlowIR.LabelStages][0]) == s['default_stage']
+                 and unflex(orig['plat'][FlowIR.LabelGlobal]) == s['platform_global']
+                 and unflex(orig['plat'][FlowIR.LabelStages][0]) == s['platform_stage'])
+        return [('instance-defines-a-variable-iff-some-layer-defines-it', seen_ok),
+                ('instance-value-comes-from-the-highest-priority-layer', val_ok),
+                ('instance-global-scope-is-platform-global-over-default-global', g_ok),
+                ('stage-variables-are-interpolated-in-the-layered-context', ctx_ok),
+                ('the-package-scopes-are-left-unchanged', frame)]
+
+    def cross_compare(self, *a):
+        return []
+
+
 class ConfigurationLayers(Target):
     prop = 'C04'
     name = 'FlowIRConcrete.get_component_configuration[layers]'
@@ -499,6 +599,6 @@ class ConvertTypesBounded:
         return f
 
 
-TARGETS = [ComponentVariables(), ConfigurationLayers(), PatchInVariableFiles(), LayerManyVariableFiles()]
+TARGETS = [ComponentVariables(), InstanceVariables(), ConfigurationLayers(), PatchInVariableFiles(), LayerManyVariableFiles()]
 LEMMAS = []
 BOUNDED = [OverrideObjectBounded(), InterpolationBounded(), ConvertTypesBounded()]
